@@ -163,6 +163,10 @@ func (f *kindFlow) wrapOf(v ssa.Value, s *kindState, depth int) wrapState {
 			return wNo
 		}
 		if fa, ok := x.X.(*ssa.FieldAddr); ok {
+			// a field of an object this function allocated (a node it builds): what the function stored there
+			if w, ok := f.fieldOfFresh(fa, s, depth); ok {
+				return w
+			}
 			if n := namedOf(fa.X.Type()); n != nil && n.Obj().Pkg() == f.a.m.sp.Pkg {
 				if w, ok := f.a.fieldW[n.Obj().Name()+"."+fieldOfAddr(fa).Name()]; ok {
 					return w
@@ -285,6 +289,79 @@ func (f *kindFlow) wrapOf(v ssa.Value, s *kindState, depth int) wrapState {
 	return wNo
 }
 
+// fieldOfFresh: fa addresses a field of an object allocated in this function (directly, or through a merge of such objects):
+// the join of everything the function stores into that field of those objects; ok=false when the object is not fresh or a store
+// cannot be seen.
+func (f *kindFlow) fieldOfFresh(fa *ssa.FieldAddr, s *kindState, depth int) (wrapState, bool) {
+	var allocs []*ssa.Alloc
+	var collect func(v ssa.Value, d int) bool
+	collect = func(v ssa.Value, d int) bool {
+		if d > 4 {
+			return false
+		}
+		switch x := v.(type) {
+		case *ssa.Alloc:
+			allocs = append(allocs, x)
+			return true
+		case *ssa.Phi:
+			for _, e := range x.Edges {
+				if !collect(e, d+1) {
+					return false
+				}
+			}
+			return true
+		}
+		return false
+	}
+	if !collect(fa.X, 0) || len(allocs) == 0 {
+		return wNo, false
+	}
+	res, n := wNo, 0
+	for _, al := range allocs {
+		for _, ref := range *al.Referrers() {
+			fa2, ok := ref.(*ssa.FieldAddr)
+			if !ok {
+				if _, isPhi := ref.(*ssa.Phi); isPhi {
+					continue
+				}
+				if c, isCall := ref.(*ssa.Call); isCall && c.Call.IsInvoke() {
+					continue // SetPosition and the like on the node
+				}
+				if _, isMI := ref.(*ssa.MakeInterface); isMI {
+					continue
+				}
+				if _, isSt := ref.(*ssa.Store); isSt {
+					continue // the node itself stored somewhere: its fields are not rewritten through that in this function
+				}
+				continue
+			}
+			if fa2.Field != fa.Field {
+				continue
+			}
+			for _, r2 := range *fa2.Referrers() {
+				if st, ok := r2.(*ssa.Store); ok && st.Addr == ssa.Value(fa2) {
+					w := f.wrapOf(st.Val, s, depth+1)
+					if u, isLoad := st.Val.(*ssa.UnOp); isLoad && f.base != nil && f.a.m.cellAddr(u.X, f.base) == "rv" {
+						if _, known := s.vals[st.Val]; !known {
+							w = wYes // the result cell as it was at the store, not as it is here: an evaluation result, taken as wrapped
+						}
+					}
+					if n == 0 {
+						res = w
+					} else {
+						res = joinW(res, w)
+					}
+					n++
+				}
+			}
+		}
+	}
+	if n == 0 {
+		return wNo, false
+	}
+	return res, true
+}
+
 // resultByParams: result #k of a call of a helper of vm, from the helper's return summaries: wrapped when some argument that
 // arrives wrapped can come back wrapped, or the helper hands back an element it read; ok=false when the helper has no
 // summary for one of its wrapped arguments (the older, coarser reasoning applies then).
@@ -295,7 +372,10 @@ func (f *kindFlow) resultByParams(c *ssa.Call, callee *ssa.Function, k int, s *k
 	if k >= callee.Signature.Results().Len() || !isReflectValue(callee.Signature.Results().At(k).Type()) {
 		return wNo, false
 	}
-	res := wNo
+	res, ok0 := f.a.retW[callee][[2]int{-1, k}]
+	if !ok0 {
+		return wNo, false
+	}
 	for i, a := range c.Call.Args {
 		if !isReflectValue(a.Type()) || f.wrapOf(a, s, depth+1) == wNo {
 			continue
@@ -701,6 +781,45 @@ func buildKindAnalysis(m *vmModel) *kindAnalysis {
 		for _, fn := range m.fns {
 			if fn.Blocks == nil {
 				continue
+			}
+			// what the function returns when none of its arguments is wrapped: values it reads itself (a field of the node, a
+			// scope lookup) may be, unless it takes them out of the interface before it hands them back
+			hasValueResult := false
+			for k := 0; k < fn.Signature.Results().Len(); k++ {
+				if isReflectValue(fn.Signature.Results().At(k).Type()) {
+					hasValueResult = true
+				}
+			}
+			if hasValueResult {
+				fl := &kindFlow{a: a, fn: fn, base: m.baseOf(fn), wrapP: -1, finds: map[string]kindFinding{}}
+				st0 := fl.Entry()
+				st0.rv = wNo
+				before := runForwardWith(fn, fl, st0)
+				for _, b := range fn.Blocks {
+					ret, ok := b.Instrs[len(b.Instrs)-1].(*ssa.Return)
+					if !ok || b == fn.Recover {
+						continue
+					}
+					stR, ok := before[ret]
+					if !ok {
+						continue
+					}
+					for k, rv := range ret.Results {
+						if !isReflectValue(rv.Type()) {
+							continue
+						}
+						w := fl.wrapOf(rv, stR, 0)
+						if a.retW[fn] == nil {
+							a.retW[fn] = map[[2]int]wrapState{}
+						}
+						key := [2]int{-1, k}
+						if old, seen := a.retW[fn][key]; !seen {
+							a.retW[fn][key] = w
+						} else if j := joinW(old, w); j != old {
+							a.retW[fn][key] = j
+						}
+					}
+				}
 			}
 			for i, prm := range fn.Params {
 				if !isReflectValue(prm.Type()) {
